@@ -161,7 +161,8 @@ class DriverMixin:
             if arr.eq(h0) or key in whole:
                 continue
             r = z3.Const("r!frame", ty.Ref)
-            excl = [r != o for o in allowed.get(key, [])]
+            # the frame speaks about objects that existed at entry; objects allocated by this very call (born > 0) are its own
+            excl = [ty.born(r) <= 0] + [r != o for o in allowed.get(key, [])]
             goal = z3.ForAll([r], z3.Implies(z3.And(*excl) if excl else z3.BoolVal(True), z3.Select(arr, r) == z3.Select(h0, r)))
             self.oblige("frame(%s)@%s" % (key, tag), st, goal, "frame")
         for g, v in st.ghost.items():
